@@ -545,6 +545,25 @@ func partialDefs() []string {
 	return out
 }
 
+func anyRejected(acc []bool) bool {
+	for _, a := range acc {
+		if !a {
+			return true
+		}
+	}
+	return false
+}
+
+func expectText(h *History) string {
+	switch {
+	case h.ExpectErrors && h.ExpectRejected:
+		return "errors from Process and a text rejected by Modules.Parse"
+	case h.ExpectErrors:
+		return "errors from Process"
+	}
+	return "a text rejected by Modules.Parse"
+}
+
 func short(s string, n int) string {
 	if len(s) > n {
 		return s[:n] + "…"
@@ -676,6 +695,14 @@ func (a *agg) evaluate(f *lib.Flags, d *driver, j job, h *History, v *Verdict, o
 		a.res.Distribution["disagreements_total"] = n + 1
 		return
 	}
+	if h.ExpectErrors && v.Rep.NErrs == 0 || h.ExpectRejected && !anyRejected(v.Rep.Accepted) {
+		n, _ := a.res.Distribution["disagreements_total"].(int)
+		a.res.Distribution["disagreements_total"] = n + 1
+		a.res.Disagreements = append(a.res.Disagreements, lib.Disagreement{Kind: "spec", Input: inputSummary(h),
+			Go: map[string]any{"accepted": v.Rep.Accepted, "process_errors": v.Rep.Errs}, SpecVerdict: "violates",
+			What:   "a malformed history of the corpus is no longer reported through errors (expected: " + expectText(h) + ")",
+			Replay: h})
+	}
 	if allParse {
 		st.AllParse++
 	}
@@ -770,6 +797,10 @@ func replay(f *lib.Flags, emptyDir string) int {
 	}
 	for _, e := range v.Rep.RawErrs {
 		fmt.Println("  go message:", e)
+	}
+	if h.ExpectErrors && v.Rep.NErrs == 0 || h.ExpectRejected && !anyRejected(v.Rep.Accepted) {
+		fmt.Println("NOT REPORTED: expected", expectText(&h))
+		return 1
 	}
 	if v.Rep.Wire == "" || f.Driver == "" {
 		fmt.Println("survival-only history (outside the modelled domain)")
